@@ -87,6 +87,8 @@ def gen_params(rng, n, alphabet=None, keys=None, simple=False):
             p['ignore'] = True
         if rng.random() < 0.15:
             p['nic'] = name + '_cfg'
+        elif rng.random() < 0.08:
+            p['nic'] = 'cfg_' + name[::-1]         # sorts differently from the parameter name
         if 'default' not in p and rng.random() < 0.12 and not any(q.get('dtype') == 'path' for q in out):
             p['dtype'] = 'path'
             p['name'] = 'pth'
